@@ -99,6 +99,20 @@ def run(ctx: Ctx) -> int:
             for i, t in enumerate(ts):
                 evs = evgen.gen_events(s, ctx.rng("c05tev", backend, i), nev)
                 all_cases.append(diff.Case(backend, t, evs, diff.members_used(s, t), tag={"features": {"template": 2, f"t{i}": 1}}))
+    # some events lack a product altogether (dropped by a skim): the job ends such an event loudly, and that too must not
+    # depend on - or leak into - the neighbouring events
+    if not ctx.replay:
+        for ci, c in enumerate(all_cases):
+            R = ctx.rng("c05absent", ci)
+            if R.random() < 0.5:
+                for ev in c.events:
+                    r = R.random()
+                    if r < 0.2:
+                        ev["banks"] = [b for b in ev["banks"] if b["bank"] != "B"]
+                        ctx.count("events_with_an_absent_product")
+                    elif r < 0.3:
+                        ev["banks"] = [b for b in ev["banks"] if b["bank"] != "A"]
+                        ctx.count("events_with_an_absent_product")
     trs = eng.translate(all_cases)
     for c in all_cases:
         eng.model(c.backend)
